@@ -139,6 +139,12 @@ def call(fname, table, target):
             out = rde.minimise(rt, target)
         elif fname == "oc":
             out = oc.minimise(rt, target)
+        elif fname == "rde_na":
+            # documented for tables without aliased (intersecting) entries
+            out = rde.minimise(rt, target, check_for_aliases=False)
+        elif fname == "oc_nr":
+            # never raises: returns what it reached
+            out, _aliases = oc.ordered_covering(rt, target, no_raise=True)
         else:
             out = minimise_table(rt, target)
         res = ("ok", [from_rte(e) for e in out])
@@ -160,10 +166,11 @@ def targets_for(n, tier):
     return out
 
 
-def judge_table(table, nbits, tier, acc, fam, targets=None, remin=True):
+def judge_table(table, nbits, tier, acc, fam, targets=None, remin=True,
+                funcs=FUNCS):
     n = len(table)
     best = {}
-    for fname in FUNCS:
+    for fname in funcs:
         for t in (targets if targets is not None else targets_for(n, tier)):
             acc.evaluations += 1
             case = dict(fam=fam, table=table, nbits=nbits, fn=fname, target=t)
@@ -178,7 +185,7 @@ def judge_table(table, nbits, tier, acc, fam, targets=None, remin=True):
                 continue
             if r[0] == "failed":
                 acc.outcome("failed")
-                if t is None:
+                if t is None or fname == "oc_nr":
                     acc.violation(dict(kind="failed_without_target",
                                        fn=fname), case,
                                   "MinimisationFailedError with target None",
@@ -201,7 +208,7 @@ def judge_table(table, nbits, tier, acc, fam, targets=None, remin=True):
                 acc.violation(dict(kind="longer", fn=fname), case,
                               "result has %d entries, input %d"
                               % (len(out), n), size=size)
-            if t is not None and len(out) > t:
+            if t is not None and len(out) > t and fname != "oc_nr":
                 acc.violation(dict(kind="target_missed", fn=fname), case,
                               "returned %d entries for target %d"
                               % (len(out), t), size=size)
@@ -556,7 +563,8 @@ def fam_viii(k, tier, acc):
         acc.nontrivial += 1
         judge_table(table, B3, tier, acc, "viii",
                     targets=[None] + list(range(len(table) + 2)),
-                    remin=False)
+                    remin=False,
+                    funcs=("rde", "oc", "mt", "rde_na", "oc_nr"))
     acc.sample(dict(fam="viii", k=k))
 
 
@@ -625,7 +633,9 @@ def fam_x(k, tier, acc):
         # reproduces it
         for tail in ([], [[[E], 0, mask_of(0, B3), [W]]]):
             acc.nontrivial += 1
-            judge_table(table + tail, B3, tier, acc, "x", remin=False)
+            judge_table(table + tail, B3, tier, acc, "x", remin=False,
+                        funcs=FUNCS + ("oc_nr",) +
+                        (() if tail else ("rde_na",)))
     acc.sample(dict(fam="x", k=k, shapes=len(shapes)))
 
 
